@@ -37,6 +37,16 @@ PROVED (for every model; no precondition on the arguments - thinning / nproj / s
       The lemma is built FROM the two post-conditions (the `data == flux_columns(..)` clause of c16_samplers and clause (2) above) on a
       synthetic state, with a vacuity guard (the hypotheses are satisfiable).
 
+  ACHRSampler.__init__ / OptGPSampler.__init__ (hooks HOOKS_SUB / HOOKS_OPT)  `super().__init__(model, thinning, nproj=nproj, seed=seed, **kwargs)` is
+      applied by the contract proved above AT THE CALL SITE (its `modifies` creates the attributes, the copy with the assumed facts and the
+      ghost traces; the post-condition is then assumed), so clauses (1)-(3) hold for the new ACHR / OptGP sampler with the constructor's own
+      arguments (passed on unchanged); generate_fva_warmup() is a RECORDED call (sets warmup / n_warmup or raises ValueError), made exactly
+      once, AFTER every HRSampler field exists, and fwd_idx / rev_idx / model / problem / _seed are not written afterwards;
+      ACHR: prev = center = warmup.mean(axis=0); np.random.seed called exactly once, with the STORED self._seed (not the raw argument);
+      OptGP: processes = the argument, or configuration.processes (opaque) when None; center = shared_np_array((len(self.model.variables),),
+      warmup.mean(axis=0)); numpy is NOT seeded by the constructor.  TypeError (integer problem) before anything; ValueError only from the
+      one generate_fva_warmup call.
+
 ASSUMED (listed in evidence)
   Model.copy@hrinit   what the copy looks like (the copy ITSELF is proved separately under C12/C13, contracts/c12_model_copy.py; here only its
       shape is needed): a NEW model object; its reaction DictList is well-formed and every reaction in it is attached to a model (so
@@ -62,6 +72,19 @@ MUTANTS (tools/mutate_and_run.sh cobra/sampling/hr_sampler.py ... contracts.c16_
   M11 `if not model.solver.is_integer`                                                expected-TypeError sat / unexpected-exception sat
   M12 `self.problem = self.__build_problem()` moved before `self.model = model.copy()`   post.11 sat (the call saw no model)
   M13 `self.bounds_tol = self.model.tolerance` (the copy's, not the argument's)       post.6 sat
+  achr.py (ACHRSampler.__init__, HOOKS_SUB)
+  A1  `np.random.seed(seed)` (the raw argument)                                       post.18, post.19 sat
+  A2  `nproj=None` passed on                                                          post.10 sat (nproj_given cases)
+  A3  `self.warmup.mean(axis=1)`                                                      post.16, post.17 sat
+  A4  generate_fva_warmup() before super().__init__                                   unexpected AttributeError / ValueError in the TypeError case
+  A5  `super().__init__(model, 1, ...)`                                               post.7 sat
+  A6  the seeding dropped                                                             post.18, post.19 sat
+  optgp.py (OptGPSampler.__init__, HOOKS_OPT)
+  O1  `self.processes = 1`                                                            post.16 sat (processes_given cases)
+  O2  `(len(self.model.reactions),)` for the shared centre                            post.17 sat / unknown
+  O3  `seed=None` passed on                                                           post.15, post.16 sat (seed_given cases)
+  O4  `if processes is not None`                                                      post sat (shape of processes)
+  O5  nproj / seed swapped in the super call                                          post.10, post.15 sat
 """
 import ast
 import z3
@@ -240,7 +263,9 @@ def pymod(x, y):
     return x - y * (x / y)
 
 
-def _post(nproj_given, seed_given):
+def _post(nproj_given, seed_given, fresh_object=True):
+    """fresh_object: the post-condition of HRSampler.__init__ itself (warmup is None); False: the same clauses read off a sampler whose
+    subclass constructor has already produced the warmup points"""
     def post(E):
         me, s0, s1 = E["self"], E.s0, E.s1
         copies, bps, clock = _trace(s1, "copy_calls"), _trace(s1, "bp_calls"), _trace(s1, "clock")
@@ -251,7 +276,7 @@ def _post(nproj_given, seed_given):
         get = lambda k: at(s1, me, k)                                                       # noqa
         shapes = (get("model") is cp and all(isinstance(get(k), N.VNp) for k in ("feasibility_tol", "bounds_tol", "fwd_idx", "rev_idx", "problem"))
                   and all(isinstance(get(k), VInt) for k in ("thinning", "nproj", "n_samples", "retries", "_seed"))
-                  and isinstance(get("warmup"), VNone))
+                  and (isinstance(get("warmup"), VNone) or not fresh_object))
         if not shapes:
             return z3.BoolVal(False)
         tol = at(s0, E["model"], "tolerance").t
@@ -307,8 +332,37 @@ def _cases():
     return out
 
 
+NP_FIELDS = ("feasibility_tol", "bounds_tol", "fwd_idx", "rev_idx", "problem")
+INT_FIELDS = ("thinning", "nproj", "n_samples", "retries", "_seed")
+
+
+def _mk_copy(eng):
+    def mk(st):
+        st, cp = _copy_t().make(st, fresh_name("model_copy"))
+        return st.assume(*copy_facts(eng, st, cp)), cp
+    return mk
+
+
 def _mod(E):
-    return [("obj", E["self"]), ("ghost", "copy_calls", lambda st: ()), ("ghost", "bp_calls", lambda st: ()), ("ghost", "clock", lambda st: ())]
+    """the attributes the constructor creates (at a call site: created with arbitrary values of the right shape, the post-condition then
+    says what they are; the copy comes with the assumed facts of Model.copy@hrinit, as in the body), and the ghost traces"""
+    me = E["self"]
+    locs = [("attr", me, "model", _mk_copy(E.eng))]
+    locs += [("attr", me, k, (lambda k: lambda st: (st, N.VNp(fresh("np:" + k, N.NP))))(k)) for k in NP_FIELDS]
+    locs += [("attr", me, k, (lambda k: lambda st: (st, VInt(fresh(k, z3.IntSort()))))(k)) for k in INT_FIELDS]
+    locs.append(("attr", me, "warmup", lambda st: (st, NONE)))
+    # ghost traces as the body leaves them, built from the attributes just created
+    locs.append(("ghost", "copy_calls", lambda st: ({"recv": E["model"], "pos": (), "kw": {}, "res": at(st, me, "model")},)))
+    locs.append(("ghost", "bp_calls", lambda st: ({"recv": me, "pos": (), "kw": {}, "res": at(st, me, "problem"), "model": at(st, me, "model"),
+                                                    "feasibility_tol": at(st, me, "feasibility_tol")},)))
+    locs.append(("ghost", "clock", lambda st: () if not isinstance(E["seed"], VNone) else (fresh("clock", z3.RealSort()),)))
+    return locs
+
+
+def _kwargs_t():
+    t = TConc({"__kwargs__": True})
+    t.default = VConc({"__kwargs__": True})
+    return t
 
 
 _none = TNone()
@@ -317,7 +371,7 @@ _none2 = TNone()
 _none2.default = NONE
 REG.add(Contract(MH, "HRSampler.__init__", "C16",
                  [("self", TObj("HRSampler", {})), ("model", _arg_model_t()), ("thinning", TInt()), ("nproj", _none), ("seed", _none2),
-                  ("**kwargs", TConc({"__kwargs__": True}))],
+                  ("**kwargs", _kwargs_t())],
                  _cases(), modifies=_mod, key=KEY,
                  note="no precondition on the arguments; the shape of model.copy() by the assumed contract Model.copy@hrinit, np.array of a list of "
                       "ints by numpy.array@intlist; __build_problem is a recorded call"))
@@ -414,3 +468,180 @@ def lemmas():
         out.append(Obl(f"C16/lemma/{tag}/column-i-is-labelled-with-the-id-of-reaction-i", hyps,
                        z3.And(rec["len"] == n_r, rec["elem"][i0] == eng.heap_arr(t0, "_id")[e_r[i0]]), "lemma"))
     return out
+
+
+# ================================================================ the subclass constructors: HRSampler.__init__ by its PROVED contract + warmup
+SUB_KEYS = ("ACHRSampler.__init__", "OptGPSampler.__init__")
+
+
+def _verifying_sub(eng):
+    return getattr(getattr(eng, "cur_contract", None), "key", None) in SUB_KEYS
+
+
+def sub_getattr(eng, st, v, name):
+    if _verifying_sub(eng) and isinstance(v, VObj) and v.cls in ("ACHRSampler", "OptGPSampler") and name == "generate_fva_warmup":
+        return [("ok", st, VFunc("bound", v, name))]
+    return None
+
+
+def sub_call_method(eng, st, recv, name, pos, kw):
+    if _verifying_sub(eng) and isinstance(recv, VObj) and recv.cls in ("ACHRSampler", "OptGPSampler") and name == "generate_fva_warmup":
+        # RECORDED (LP solves: not proved): sets self.warmup / self.n_warmup; ValueError for a model that cannot be sampled
+        call = {"recv": recv, "pos": tuple(pos), "kw": dict(kw), "fields": st.objs[recv.oid]}
+        s2 = st.setghost("warmup_calls", _trace(st, "warmup_calls") + (call,))
+        ok = s2.updobj(recv.oid, **{"attr:warmup": N.VNp(fresh("np:warmup", N.NP)), "attr:n_warmup": VInt(fresh("n_warmup", z3.IntSort()))})
+        return [("ok", ok, NONE), ("raise", s2, VExc("ValueError"))]
+    return None
+
+
+def sub_call_abstract(eng, st, f, pos, kw):
+    if f.a == "numpy.random.seed":
+        return CX.c_call_abstract(eng, st, f, pos, kw)
+    return None
+
+
+HOOKS_SUB = chain_hooks({"getattr": sub_getattr, "call_method": sub_call_method, "call_abstract": sub_call_abstract}, HOOKS)
+
+
+def warm_mean(w):
+    """warmup.mean(axis=0)"""
+    return N.term("call(axis)", N.term("attr.mean", w), N.of_int(0))
+
+
+def _achr_post(ng, sg):
+    base = _post(ng, sg, fresh_object=False)
+
+    def post(E):
+        me, s1 = E["self"], E.s1
+        b = base(E)
+        if z3.is_false(b):
+            return b
+        wc = _trace(s1, "warmup_calls")
+        w, prev, center = at(s1, me, "warmup"), at(s1, me, "prev"), at(s1, me, "center")
+        # ONE generate_fva_warmup(), on self, AFTER HRSampler.__init__ finished (all its fields were there; the index maps are what the
+        # warmup objectives are built from)
+        ok = (len(wc) == 1 and wc[0]["recv"] is me and not wc[0]["pos"] and not wc[0]["kw"]
+              and all("attr:" + k in wc[0]["fields"] for k in NP_FIELDS + INT_FIELDS + ("model",))
+              and all(wc[0]["fields"]["attr:" + k] is at(s1, me, k) for k in ("fwd_idx", "rev_idx", "model", "problem", "_seed"))
+              and isinstance(w, N.VNp) and isinstance(prev, N.VNp) and isinstance(center, N.VNp))
+        if not ok:
+            return z3.BoolVal(False)
+        seed = s1.ghost.get("rng_seed")
+        return z3.And(b, prev.t == warm_mean(w.t), center.t == warm_mean(w.t),                      # start = centre = mean of the warmup points
+                      z3.BoolVal(seed is not None and not s1.ghost.get("rng_bad")),                 # numpy seeded exactly once ...
+                      (seed == at(s1, me, "_seed").t) if seed is not None else z3.BoolVal(False))   # ... with the STORED seed
+    return post
+
+
+def _sub_cases(post_of, exc="ValueError"):
+    out = []
+    for ng in (False, True):
+        for sg in (False, True):
+            c = Case(("nproj_given" if ng else "nproj_default") + "/" + ("seed_given" if sg else "seed_from_clock"),
+                     requires=lambda E: z3.Not(is_integer(E)), ensures=post_of(ng, sg))
+            c.params_override = {"nproj": TInt() if ng else TNone(), "seed": TInt() if sg else TNone()}
+            c.domain = lambda E: z3.Not(is_integer(E))
+            c.may_raise = exc                                 # generate_fva_warmup gives up on a model that cannot be sampled
+            c.ensures_on_raise = lambda E: z3.BoolVal(len(_trace(E.s1, "warmup_calls")) == 1)     # only there
+            c.modifies_on_raise = _sub_mod
+            out.append(c)
+    r = Case("integer_problem", requires=is_integer, raises="TypeError",
+             ensures=lambda E: z3.BoolVal(not _trace(E.s1, "warmup_calls") and _raise_post(E) is not None and z3.is_true(_raise_post(E))))
+    r.domain = is_integer
+    out.append(r)
+    return out
+
+
+def _sub_mod(E):
+    return [("obj", E["self"])] + [("ghost", k, lambda st: ()) for k in ("copy_calls", "bp_calls", "clock", "warmup_calls")] + \
+        [("ghost", "rng_seed", lambda st: fresh("rng_seed", z3.IntSort())), ("ghost", "rng_bad", lambda st: None), ("ghost", "rng_drawn", lambda st: None)]
+
+
+_th = TInt()
+_th.default = VInt(100)
+_n3, _n4 = TNone(), TNone()
+_n3.default = NONE
+_n4.default = NONE
+REG.add(Contract(CX.MA, "ACHRSampler.__init__", "C16",
+                 [("self", TObj("ACHRSampler", {})), ("model", _arg_model_t()), ("thinning", _th), ("nproj", _n3), ("seed", _n4),
+                  ("**kwargs", _kwargs_t())],
+                 _sub_cases(_achr_post), modifies=_sub_mod, key="ACHRSampler.__init__",
+                 note="super().__init__ by the PROVED contract of HRSampler.__init__ (applied at the call site); generate_fva_warmup is a recorded "
+                      "call that sets warmup / n_warmup or raises ValueError"))
+
+
+# ---------------------------------------------------------------- OptGPSampler.__init__
+CONFIG = z3.Const("np:cobra.Configuration()", N.NP)          # the module global `configuration` of cobra.sampling.optgp (opaque)
+
+
+def o_global(eng, name):
+    if getattr(getattr(eng, "cur_contract", None), "key", None) != "OptGPSampler.__init__":
+        return None
+    if name == "configuration":
+        return N.VNp(CONFIG)
+    if name == "shared_np_array":
+        return VFunc("abstract", "shared_np_array")
+    return None
+
+
+def o_call_abstract(eng, st, f, pos, kw):
+    if f.a == "shared_np_array" and len(pos) == 2 and not kw:
+        return [("ok", st, N.app("shared_np_array", *pos))]          # a copy of the data in shared memory: opaque
+    return None
+
+
+HOOKS_OPT = chain_hooks({"global": o_global, "call_abstract": o_call_abstract}, HOOKS_SUB)
+
+
+def _optgp_post(pg):
+    def of(ng, sg):
+        base = _post(ng, sg, fresh_object=False)
+
+        def post(E):
+            me, s1 = E["self"], E.s1
+            b = base(E)
+            if z3.is_false(b):
+                return b
+            wc = _trace(s1, "warmup_calls")
+            w, center, procs = at(s1, me, "warmup"), at(s1, me, "center"), at(s1, me, "processes")
+            ok = (len(wc) == 1 and wc[0]["recv"] is me and not wc[0]["pos"] and not wc[0]["kw"]
+                  and all("attr:" + k in wc[0]["fields"] for k in NP_FIELDS + INT_FIELDS + ("model",))
+                  and all(wc[0]["fields"]["attr:" + k] is at(s1, me, k) for k in ("fwd_idx", "rev_idx", "model", "problem", "_seed"))
+                  and isinstance(w, N.VNp) and isinstance(center, N.VNp) and isinstance(procs, VInt if pg else N.VNp)
+                  and s1.ghost.get("rng_seed") is None)         # the constructor does NOT seed numpy: every chain seeds itself (_sample_chain)
+            if not ok:
+                return z3.BoolVal(False)
+            nv = L(s1, at(s1, at(s1, me, "model"), "variables"))[0]
+            return z3.And(b, procs.t == (E["processes"].t if pg else N.term("attr.processes", CONFIG)),
+                          center.t == N.term("shared_np_array", N.term("tuple", N.of_int(nv)), warm_mean(w.t)))
+        return post
+    return of
+
+
+def _optgp_cases():
+    out = []
+    for pg in (False, True):
+        for c in _sub_cases(_optgp_post(pg)):
+            if c.raises is not None and pg:
+                continue                                   # the TypeError case does not depend on `processes`: listed once
+            if c.raises is None:
+                c.name = c.name + "/" + ("processes_given" if pg else "processes_from_configuration")
+                c.params_override = dict(c.params_override, processes=TInt() if pg else TNone())
+                c.modifies_on_raise = _optgp_mod
+            out.append(c)
+    return out
+
+
+def _optgp_mod(E):
+    return [loc for loc in _sub_mod(E) if loc[1] not in ("rng_seed", "rng_bad", "rng_drawn")]
+
+
+_th2 = TInt()
+_th2.default = VInt(100)
+_n5, _n6, _n7 = TNone(), TNone(), TNone()
+_n5.default = _n6.default = _n7.default = NONE
+REG.add(Contract(CX.MO, "OptGPSampler.__init__", "C16",
+                 [("self", TObj("OptGPSampler", {})), ("model", _arg_model_t()), ("thinning", _th2), ("processes", _n5), ("nproj", _n6),
+                  ("seed", _n7), ("**kwargs", _kwargs_t())],
+                 _optgp_cases(), modifies=_optgp_mod, key="OptGPSampler.__init__",
+                 note="as ACHRSampler.__init__; `configuration.processes` and shared_np_array are opaque"))
